@@ -186,7 +186,8 @@ def prop_keys():
                 ks.append((SRC, n))
         out[prop] = ks
     for prop, ks in anchor_pins().items():
-        out[prop] = list(ks)
+        base = out.get(prop, [])
+        out[prop] = base + [k for k in ks if k not in base]
     return out
 
 
